@@ -68,7 +68,10 @@ var c07Forms = []c07Form{
 	{"{% capture c %}", "{% endcapture %}"},
 }
 
-var c07Layouts = []string{"", "x\n", "\ny \n"}
+// Surrounding text. The last one is a decoy: the very same construct, on a line of its own, inside a branch
+// that is not taken (for render-time failures; parse-time kinds get plain text instead) - the error must
+// still name the line of the occurrence that failed.
+var c07Layouts = []string{"", "x\n", "\ny \n", "\x00decoy"}
 
 var c07Locs = []struct {
 	path string
@@ -104,6 +107,15 @@ func c07Families(tier string) []explore.Family {
 			lays := make([]string, d+1)
 			for j := range lays {
 				lays[j] = c07Layouts[rx.next(Ly)]
+			}
+			for j := range lays {
+				if lays[j] == "\x00decoy" {
+					if kind.parseTime {
+						lays[j] = "decoy\n"
+					} else {
+						lays[j] = "{% if false %}" + kind.src + kind.tail + "{% endif %}\n"
+					}
+				}
 			}
 			if kind.name == "stray-clause-tag" && d > 0 && strings.Contains(forms[d-1].open, "case") {
 				return // a when directly inside case is not stray
@@ -347,9 +359,9 @@ func init() {
 		Families: c07Families,
 		Bound: func(tier string) string {
 			if tier == "thorough" {
-				return "nesting depth 0..3 over 7 forms, all 3^(depth+1) layouts"
+				return "nesting depth 0..3 over 7 forms, all 4^(depth+1) layouts of surrounding text (one of them a decoy: the same construct on an earlier line in a branch not taken)"
 			}
-			return "nesting depth 0..2 over 7 forms, all 3^(depth+1) layouts"
+			return "nesting depth 0..2 over 7 forms, all 4^(depth+1) layouts of surrounding text (one of them a decoy: the same construct on an earlier line in a branch not taken)"
 		},
 	})
 }
